@@ -45,6 +45,14 @@ ApplyHere(n, op) ==
     [] op.op = "swap"  -> [n EXCEPT !.kids = Swap(@, op.i, op.j)]
     [] op.op = "large" -> [n EXCEPT !.large = TRUE]
     [] op.op = "eof"   -> [n EXCEPT !.eof = TRUE]
+    \* optional boxes that carry no sample-level meaning for the reader: an edit list in a trak
+    \* (version op.ver, one empty edit and one media edit), the fragment duration in mvex
+    [] op.op = "edts"  -> [n EXCEPT !.kids = InsAt(@, op.at, Cont(EDTS, <<>>, <<Leaf(EncElst(
+                              [ version |-> op.ver, flags |-> 0,
+                                entries |-> << [segment_duration |-> <<5>>, media_time |-> IF op.ver = 1 THEN <<255, 255, 255, 255, 255, 255, 255, 255>> ELSE <<255, 255, 255, 255>>,
+                                                media_rate |-> 1, media_rate_fraction |-> 0],
+                                               [segment_duration |-> <<1, 0>>, media_time |-> <<2>>, media_rate |-> 1, media_rate_fraction |-> 0] >> ]))>>))]
+    [] op.op = "mehd"  -> [n EXCEPT !.kids = InsAt(@, op.at, Leaf(EncMehd([version |-> op.ver, flags |-> 0, fragment_duration |-> <<1, 2, 3>>])))]
     \* an event message box (DASH, ISO/IEC 23009-1) of version op.ver in front of kid op.at
     [] op.op = "emsg"  -> [n EXCEPT !.kids = InsAt(@, op.at, Leaf(EncEmsg(
                               [ version |-> op.ver, flags |-> 0, timescale |-> <<3, 232>>,
@@ -141,7 +149,10 @@ TrakNode(tr) ==
                  \o (IF tb.stss.some THEN <<Leaf(EncStss(WStssOf(tb)))>> ELSE <<>>)
                  \o <<Leaf(EncStsc(WStscOf(tb))), Leaf(EncStsz(WStszOf(tb))),
                       Leaf(IF tb.co.kind = "stco" THEN EncStco(WCoOf(tb)) ELSE EncCo64(WCoOf(tb)))>>)
-      dinf == Cont(DINF, <<>>, <<Cont(DREF, Zeros(4) \o BE(1, 4), <<Leaf(EncUrl([version |-> 0, flags |-> 1, location |-> <<>>]))>>)>>)
+      \* optional field urlloc: the data reference names an external location (flags 0) instead of
+      \* "same file" (flags 1, empty location)
+      loc  == IF "urlloc" \in DOMAIN tr THEN tr.urlloc ELSE <<>>
+      dinf == Cont(DINF, <<>>, <<Cont(DREF, Zeros(4) \o BE(1, 4), <<Leaf(EncUrl([version |-> 0, flags |-> IF loc = <<>> THEN 1 ELSE 0, location |-> loc]))>>)>>)
   IN Cont(TRAK, <<>>, << Leaf(EncTkhd(tkhd)),
                         Cont(MDIA, <<>>, << Leaf(EncMdhd(mdhd)), Leaf(EncHdlr(hdlr)),
                                            Cont(MINF, <<>>, mhd \o <<dinf, stbl>>) >>) >>)
@@ -175,7 +186,8 @@ PlainTree(m, offs) ==
       mdur == LET RECURSIVE M(_, _)
                   M(i, acc) == IF i > n THEN acc ELSE M(i + 1, BMax(acc, tk(i))) IN M(1, <<>>)
       traks == [t \in 1..n |-> TrakNode([id |-> t, kind |-> m.tracks[t].kind, timescale |-> m.tracks[t].timescale,
-                                         tbl |-> withCo(t), tkhdDur |-> tk(t)])]
+                                         tbl |-> withCo(t), tkhdDur |-> tk(t),
+                                         urlloc |-> IF "urlloc" \in DOMAIN m THEN m.urlloc ELSE <<>>])]
       moov == Cont(MOOV, <<>>, <<Leaf(EncMvhd(MvhdOf(m.mts, mdur, n + 1)))>> \o traks \o m.extra)
       cb   == [t \in 1..n |-> AllChunkBytes(t, m.tracks[t].tbl)]
       mdat == Leaf(Box(MDAT, Flat([i \in 1..Len(m.order) |-> cb[m.order[i][1]][m.order[i][2]]])))
@@ -299,9 +311,11 @@ TrafNode(tf, p) ==
                 sample_durations |-> IF tf.durs.some THEN tf.durs.v ELSE <<>>,
                 sample_sizes |-> IF hasDef THEN <<>> ELSE [i \in 1..n |-> FromInt(tf.sizes[i])],
                 sample_flags |-> <<>>, sample_cts |-> IF tf.cts.some THEN tf.cts.v ELSE <<>> ]
+      \* optional field noTrun: the track fragment carries no run at all (tfhd + tfdt only)
+      noTrun == "noTrun" \in DOMAIN tf /\ tf.noTrun
   IN Cont(TRAF, <<>>, << Leaf(EncTfhd(tfhd)),
-                        Leaf(EncTfdt([version |-> tf.tfdtV, flags |-> 0, base_media_decode_time |-> tf.tfdt])),
-                        Leaf(EncTrun(trun)) >>)
+                        Leaf(EncTfdt([version |-> tf.tfdtV, flags |-> 0, base_media_decode_time |-> tf.tfdt])) >>
+                      \o (IF noTrun THEN <<>> ELSE <<Leaf(EncTrun(trun))>>))
 
 \* global sample number of the first sample of traf j in fragment i, for payload patterns
 FragFirstNo(fm, i, j) ==
